@@ -55,6 +55,15 @@ def spacesL (n : Nat) : Bytes := List.replicate n 32
 
 def endsNl (v : Bytes) : Bool := v.getLast? == some 10
 
+/-- the text ends with a (lone) `\r` -/
+def endsCr (v : Bytes) : Bool := v.getLast? == some 13
+
+/-- what the writer inserts behind the text `v`: a second `\r` when `v` ends with `\r` and the next element is a text
+that starts with `\n` (`TextWriter::write_literal`, the fix for F24) -/
+def crPad (v : Bytes) : List (PatElem Bytes) → Bytes
+  | .text u :: _ => if endsCr v && u.head? == some 10 then [13] else []
+  | _ => []
+
 def keyBytes : VKey Bytes → Bytes
   | .ident n => n
   | .num v => v
@@ -108,13 +117,18 @@ def variantText (L : Nat) : Variant Bytes → Bytes
 /-- the elements of a pattern written at level `L`; `nl` = the writer is at the start of a line -/
 def elemsText (L : Nat) (nl : Bool) : List (PatElem Bytes) → Bytes
   | [] => []
-  | .text v :: es => (if nl then spacesL (4 * L) else []) ++ v ++ elemsText L (endsNl v) es
+  | .text v :: es => (if nl then spacesL (4 * L) else []) ++ v ++ crPad v es ++ elemsText L (endsNl v) es
   | .placeable x :: es => (if nl then spacesL (4 * L) else []) ++ exprText L x ++ elemsText L false es
 end
 
 /-- what `serialize_pattern` writes at indent level `L` -/
 def patText (L : Nat) (p : List (PatElem Bytes)) : Bytes :=
   patPrefix p ++ elemsText (elemLevel L p) (startsOnNewLine p) p
+
+theorem elemsText_text (L : Nat) (nl : Bool) (v : Bytes) (es : List (PatElem Bytes)) :
+    elemsText L nl (.text v :: es) =
+      (if nl then spacesL (4 * L) else []) ++ v ++ crPad v es ++ elemsText L (endsNl v) es := by
+  rw [elemsText]
 
 /-! ## on select-free inline expressions the level-indexed text is `inlineBytes` -/
 
@@ -184,9 +198,13 @@ theorem exprText_inline_valid (L : Nat) (i : Inline Bytes) (hv : validInner (.in
 
 /-! ## the class of patterns -/
 
-/-- text bytes: non-empty, no `\r`, no braces, `\n` only as the last byte -/
+/-- the text ends with `\r\n` -/
+def crlfEnd (v : Bytes) : Bool := v.getLast? == some 10 && v.dropLast.getLast? == some 13
+
+/-- text bytes: non-empty, no braces, `\n` only as the last byte and not behind a `\r` (a lone `\r` is allowed
+everywhere) -/
 def mlTextOK (v : Bytes) : Bool :=
-  !v.isEmpty && v.all (fun b => b != 13 && b != 123 && b != 125) && v.dropLast.all (fun b => b != 10)
+  !v.isEmpty && v.all (fun b => b != 123 && b != 125) && v.dropLast.all (fun b => b != 10) && !crlfEnd v
 
 def leadSpaces (v : Bytes) : Nat := (v.takeWhile (fun b => b == 32)).length
 
@@ -208,7 +226,7 @@ def mlElems : Bool → List (PatElem Bytes) → Bool
   | nl, .text v :: es =>
     mlTextOK v &&
       (match es with
-       | .text _ :: _ => endsNl v
+       | .text u :: _ => endsNl v || (endsCr v && u == [10])
        | _ => true) &&
       (!nl || v == [10] || lineStartOK v es) && mlElems (endsNl v) es
 
@@ -221,7 +239,7 @@ def excesses : Bool → List (PatElem Bytes) → List Nat
 /-- the last element, if a text, ends with a byte that `trim` keeps -/
 def mlLastOK : List (PatElem Bytes) → Bool
   | [] => true
-  | [.text v] => v.getLast? != some 32 && v.getLast? != some 10
+  | [.text v] => v.getLast? != some 32 && v.getLast? != some 10 && v.getLast? != some 13
   | _ :: rest => mlLastOK rest
 
 /-- the first element fits how the pattern starts -/
@@ -230,9 +248,12 @@ def mlFirstOK (p : List (PatElem Bytes)) : Bool :=
   | .text v :: _ => if startsOnNewLine p then v != [10] else v.head? != some 32 && v.head? != some 10
   | _ => true
 
-/-- **the pattern class** (texts; the placeables are constrained separately): line-split texts without
-`\r`, lines start with a byte that continues a pattern, some line has no excess indentation (or no line
-takes part in the common-indent computation: an inline start followed only by a select expression) -/
+/-- **the pattern class** (texts; the placeables are constrained separately): line-split texts (a lone `\r` is an
+ordinary byte of a text; a text does not end with `\r\n`; two texts are adjacent only across a line break — the first
+ends with `\n`, or it ends with `\r` and the second is `"\n"`: the shape the parser returns for `…\r\r\n`), lines start
+with a byte that continues a pattern, the last text does not end with a byte `trim` removes (space, `\n`, `\r`), some
+line has no excess indentation (or no line takes part in the common-indent computation: an inline start followed only
+by a select expression) -/
 def mlPattern (p : List (PatElem Bytes)) : Bool :=
   !p.isEmpty && mlElems (startsOnNewLine p) p && mlLastOK p && mlFirstOK p &&
     (!isMultiline p || (excesses (startsOnNewLine p) p).isEmpty || (excesses (startsOnNewLine p) p).contains 0)
@@ -423,7 +444,7 @@ theorem finishElements_mph (s : Src) (c : Option Nat) (es : List (PatElem Bytes)
 /-- a line on which `get_pattern` stops: end of input, a byte in column 0 that is no blank / line end
 / `{`, or an indented `.`, `[`, `*`, `}` -/
 def Stopper (s : Src) (q : Nat) : Prop :=
-  s.size ≤ q ∨ (∃ b, s[q]? = some b ∧ b ≠ 32 ∧ b ≠ 10 ∧ b ≠ 13 ∧ b ≠ 123) ∨
+  s.size ≤ q ∨ (∃ b, s[q]? = some b ∧ b ≠ 32 ∧ b ≠ 10 ∧ (b = 13 → s[q + 1]? ≠ some 10) ∧ b ≠ 123) ∨
     (∃ k b, 0 < k ∧ (∀ j, j < k → s[q + j]? = some 32) ∧ s[q + k]? = some b ∧ (b = 46 ∨ b = 91 ∨ b = 42 ∨ b = 125))
 
 /-- empty lines, then a stopper line at `q'` -/
@@ -486,66 +507,122 @@ theorem patternLoop_finish (s : Src) (q' : Nat) : ∀ (d n q : Nat) (st : PatSta
 theorem mlTextOK_ne {v : Bytes} (h : mlTextOK v = true) : v ≠ [] := by
   intro h0; subst h0; simp [mlTextOK] at h
 
-theorem mlTextOK_mem {v : Bytes} (h : mlTextOK v = true) : ∀ b ∈ v, b ≠ 13 ∧ b ≠ 123 ∧ b ≠ 125 := by
+theorem mlTextOK_mem {v : Bytes} (h : mlTextOK v = true) : ∀ b ∈ v, b ≠ 123 ∧ b ≠ 125 := by
   intro b hb
   simp only [mlTextOK, Bool.and_eq_true, List.all_eq_true] at h
-  have := h.1.2 b hb
-  simpa [and_assoc] using this
+  have := h.1.1.2 b hb
+  simpa using this
 
 theorem mlTextOK_init {v : Bytes} (h : mlTextOK v = true) : ∀ b ∈ v.dropLast, b ≠ 10 := by
   intro b hb
   simp only [mlTextOK, Bool.and_eq_true, List.all_eq_true] at h
-  simpa using h.2 b hb
+  simpa using h.1.2 b hb
 
-/-- a text without final `\n` is a `validText` -/
-theorem validText_of_ml {v : Bytes} (h : mlTextOK v = true) (hn : endsNl v = false) : validText v = true := by
+theorem mlTextOK_nocrlf {v : Bytes} (h : mlTextOK v = true) : crlfEnd v = false := by
+  simp only [mlTextOK, Bool.and_eq_true, Bool.not_eq_true'] at h
+  exact h.2
+
+theorem dropLast_snoc_self (l : Bytes) (x : UInt8) (h : l.getLast? = some x) : l = l.dropLast ++ [x] := by
+  induction l with
+  | nil => simp at h
+  | cons a as ih =>
+    cases as with
+    | nil => simp at h; simp [h]
+    | cons b bs =>
+      rw [List.getLast?_cons_cons] at h
+      rw [List.dropLast_cons_cons, List.cons_append, ← ih h]
+
+theorem dropLast_snoc_exists (v : Bytes) (hne : v ≠ []) : ∃ x, v = v.dropLast ++ [x] := by
+  cases hl : v.getLast? with
+  | none => simp at hl; exact absurd hl hne
+  | some x => exact ⟨x, dropLast_snoc_self v x hl⟩
+
+/-- a text without final `\n` has no `\n`, `{`, `}` at all -/
+theorem mlTextOK_clean {v : Bytes} (h : mlTextOK v = true) (hn : endsNl v = false) :
+    ∀ b ∈ v, b ≠ 10 ∧ b ≠ 123 ∧ b ≠ 125 := by
   have hne := mlTextOK_ne h
-  simp only [validText, Bool.and_eq_true, Bool.not_eq_true', List.isEmpty_eq_false_iff, List.all_eq_true]
-  refine ⟨hne, ?_⟩
   intro b hb
-  obtain ⟨h1, h2, h3⟩ := mlTextOK_mem h b hb
-  have h10 : b ≠ 10 := by
-    intro h0; subst h0
-    have hd := dropLast_snoc_exists v hne
-    obtain ⟨x, hx⟩ := hd
-    rw [hx] at hb
+  obtain ⟨h2, h3⟩ := mlTextOK_mem h b hb
+  refine ⟨?_, h2, h3⟩
+  intro h0; subst h0
+  obtain ⟨x, hx⟩ := dropLast_snoc_exists v hne
+  rw [hx] at hb
+  simp only [List.mem_append, List.mem_singleton] at hb
+  rcases hb with hb | rfl
+  · exact mlTextOK_init h 10 hb rfl
+  · have : v.getLast? = some 10 := by rw [hx]; simp
+    simp [endsNl, this] at hn
+
+/-- `get_text_slice` on a text (no `\n`, no braces) that is followed by `{` -/
+theorem getTextSlice_brace_g (s : Src) (v : Bytes) (hv : ∀ b ∈ v, b ≠ 10 ∧ b ≠ 123 ∧ b ≠ 125) (p : Nat) (h : At s p v)
+    (hc : s[p + v.length]? = some 123) :
+    getTextSlice s p = .ok (p, p + v.length, v.any (fun b => b != 32), .placeableStart) (p + v.length) := by
+  have hlt := get_lt hc
+  unfold getTextSlice
+  simp only [show ¬ p > s.size by omega, if_false]
+  rw [memchr3_at s v p h hv 123 hc (by decide)]
+  simp only [hc, nonBlank_at s v p h]
+
+/-- `get_text_slice` on a text (no `\n`, no braces, not ending with `\r`) that is followed by `\n` -/
+theorem getTextSlice_lf_g (s : Src) (v : Bytes) (hv : ∀ b ∈ v, b ≠ 10 ∧ b ≠ 123 ∧ b ≠ 125) (hne : v ≠ [])
+    (hl13 : v.getLast? ≠ some 13) (p : Nat) (h : At s p v) (hc : s[p + v.length]? = some 10) :
+    getTextSlice s p = .ok (p, p + v.length + 1, v.any (fun b => b != 32), .lineFeed) (p + v.length + 1) := by
+  have hlt := get_lt hc
+  have hlen : 0 < v.length := by cases v <;> simp_all
+  unfold getTextSlice
+  simp only [show ¬ p > s.size by omega, if_false]
+  rw [memchr3_at s v p h hv 10 hc (by decide)]
+  simp only [hc]
+  have h13 : s[p + v.length - 1]? ≠ some 13 := by
+    have hg := at_get h (v.length - 1) (by omega)
+    rw [show p + (v.length - 1) = p + v.length - 1 by omega] at hg
+    rw [hg]
+    rw [List.getLast?_eq_getElem?, List.getElem?_eq_getElem (by omega)] at hl13
+    exact hl13
+  simp only [beq_iff_eq, h13, and_false, if_false, nonBlank_at s v p h]
+
+/-- `get_text_slice` on a text (no `\n`, no braces) that is followed by `\r\n`: the slice ends in front of the `\r`,
+the cursor is left at the `\n` -/
+theorem getTextSlice_crlf_g (s : Src) (v : Bytes) (hv : ∀ b ∈ v, b ≠ 10 ∧ b ≠ 123 ∧ b ≠ 125) (p : Nat) (h : At s p v)
+    (h13 : s[p + v.length]? = some 13) (h10 : s[p + v.length + 1]? = some 10) :
+    getTextSlice s p = .ok (p, p + v.length, v.any (fun b => b != 32), .crlf) (p + v.length + 1) := by
+  have hlt := get_lt h10
+  have hat2 : At s p (v ++ [13]) := by
+    rw [at_append]; exact ⟨h, by simp [at_cons, h13]⟩
+  have hv2 : ∀ b ∈ v ++ [13], b ≠ 10 ∧ b ≠ 123 ∧ b ≠ 125 := by
+    intro b hb
     simp only [List.mem_append, List.mem_singleton] at hb
     rcases hb with hb | rfl
-    · exact mlTextOK_init h 10 hb rfl
-    · have : v.getLast? = some 10 := by rw [hx]; simp
-      simp [endsNl, this] at hn
-  simp [h1, h2, h3, h10]
-where
-  dropLast_snoc_exists (v : Bytes) (hne : v ≠ []) : ∃ x, v = v.dropLast ++ [x] := by
-    cases hl : v.getLast? with
-    | none => simp at hl; exact absurd hl hne
-    | some x => exact ⟨x, dropLast_snoc_self v x hl⟩
-  dropLast_snoc_self (l : Bytes) (x : UInt8) (h : l.getLast? = some x) : l = l.dropLast ++ [x] := by
-    induction l with
-    | nil => simp at h
-    | cons a as ih =>
-      cases as with
-      | nil => simp at h; simp [h]
-      | cons b bs =>
-        rw [List.getLast?_cons_cons] at h
-        rw [List.dropLast_cons_cons, List.cons_append, ← ih h]
+    · exact hv b hb
+    · decide
+  have hm := memchr3_at s (v ++ [13]) p hat2 hv2 10 (by simpa [Nat.add_assoc] using h10) (by decide)
+  simp only [List.length_append, List.length_cons, List.length_nil, Nat.zero_add, ← Nat.add_assoc] at hm
+  unfold getTextSlice
+  simp only [show ¬ p > s.size by omega, if_false, hm, h10]
+  simp only [show p + v.length + 1 > p by omega, show p + v.length + 1 - 1 = p + v.length by omega, h13,
+    beq_self_eq_true, and_self, if_true, nonBlank_at s v p h]
 
 theorem mlSlice_brace (s : Src) (v : Bytes) (hv : mlTextOK v = true) (hn : endsNl v = false) (pc : Nat)
     (h : At s pc v) (hc : s[pc + v.length]? = some 123) :
     getTextSlice s pc = .ok (pc, pc + v.length, v.any (fun b => b != 32), .placeableStart) (pc + v.length) :=
-  getTextSlice_brace s v (validText_of_ml hv hn) pc h hc
+  getTextSlice_brace_g s v (mlTextOK_clean hv hn) pc h hc
 
-theorem mlSlice_last (s : Src) (v : Bytes) (hv : mlTextOK v = true) (hn : endsNl v = false) (pc : Nat)
-    (h : At s pc v) (hc : s[pc + v.length]? = some 10) :
+theorem mlSlice_last (s : Src) (v : Bytes) (hv : mlTextOK v = true) (hn : endsNl v = false) (h13 : endsCr v = false)
+    (pc : Nat) (h : At s pc v) (hc : s[pc + v.length]? = some 10) :
     getTextSlice s pc = .ok (pc, pc + v.length + 1, v.any (fun b => b != 32), .lineFeed) (pc + v.length + 1) :=
-  getTextSlice_lf s v (validText_of_ml hv hn) pc h hc
+  getTextSlice_lf_g s v (mlTextOK_clean hv hn) (mlTextOK_ne hv) (by simpa [endsCr] using h13) pc h hc
+
+theorem mlSlice_crlf (s : Src) (v : Bytes) (hv : mlTextOK v = true) (hn : endsNl v = false) (pc : Nat)
+    (h : At s pc v) (h13 : s[pc + v.length]? = some 13) (h10 : s[pc + v.length + 1]? = some 10) :
+    getTextSlice s pc = .ok (pc, pc + v.length, v.any (fun b => b != 32), .crlf) (pc + v.length + 1) :=
+  getTextSlice_crlf_g s v (mlTextOK_clean hv hn) pc h h13 h10
 
 theorem mlSlice_nl (s : Src) (v : Bytes) (hv : mlTextOK v = true) (hn : endsNl v = true) (pc : Nat)
     (h : At s pc v) :
     getTextSlice s pc = .ok (pc, pc + v.length, v.dropLast.any (fun b => b != 32), .lineFeed) (pc + v.length) := by
   have hne := mlTextOK_ne hv
   have hl : v.getLast? = some 10 := by simpa [endsNl] using hn
-  have hx := validText_of_ml.dropLast_snoc_self v 10 hl
+  have hx := dropLast_snoc_self v 10 hl
   rw [hx, at_append] at h
   simp only [at_cons] at h
   have hlen : v.length = v.dropLast.length + 1 := by
@@ -555,13 +632,15 @@ theorem mlSlice_nl (s : Src) (v : Bytes) (hv : mlTextOK v = true) (hn : endsNl v
     simp only [List.length_nil, Nat.add_zero] at h
     rw [getTextSlice_nl s pc h.2.1, hlen]
     simp
-  · have hv0 : validText v.dropLast = true := by
-      simp only [validText, Bool.and_eq_true, Bool.not_eq_true', List.isEmpty_eq_false_iff, List.all_eq_true]
-      refine ⟨h0, fun b hb => ?_⟩
+  · have hv0 : ∀ b ∈ v.dropLast, b ≠ 10 ∧ b ≠ 123 ∧ b ≠ 125 := by
+      intro b hb
       have h1 := mlTextOK_mem hv b (by rw [hx]; simp [hb])
-      have h2 := mlTextOK_init hv b hb
-      simp [h1.1, h1.2.1, h1.2.2, h2]
-    rw [getTextSlice_lf s v.dropLast hv0 pc h.1 h.2.1, hlen]
+      exact ⟨mlTextOK_init hv b hb, h1.1, h1.2⟩
+    have hl13 : v.dropLast.getLast? ≠ some 13 := by
+      have := mlTextOK_nocrlf hv
+      simp only [crlfEnd, hl, beq_self_eq_true, Bool.true_and, beq_eq_false_iff_ne, ne_eq] at this
+      exact this
+    rw [getTextSlice_lf_g s v.dropLast hv0 h0 hl13 pc h.1 h.2.1, hlen]
     simp [Nat.add_assoc]
 
 theorem trimEndGo_first (s : Src) (a : Nat) (c : UInt8) (hc : s[a]? = some c) (h1 : c ≠ 32) (h2 : c ≠ 13) (h3 : c ≠ 10) :
@@ -592,12 +671,25 @@ theorem trimEnd_first (s : Src) (a b : Nat) (c : UInt8) (hab : a < b) (hc : s[a]
   simp only [trimEnd, bne_iff_ne, ne_eq]
   omega
 
+theorem crlfEnd_iff (v : Bytes) : crlfEnd v = true ↔ ∃ pre, v = pre ++ [13, 10] := by
+  constructor
+  · intro h
+    simp only [crlfEnd, Bool.and_eq_true, beq_iff_eq] at h
+    have h1 := dropLast_snoc_self v 10 h.1
+    have h2 := dropLast_snoc_self v.dropLast 13 h.2
+    exact ⟨v.dropLast.dropLast, by rw [List.append_cons, ← h2, ← h1]⟩
+  · rintro ⟨pre, rfl⟩
+    have h1 : (pre ++ [13, 10]).dropLast = pre ++ [13] := by
+      rw [show pre ++ [13, 10] = (pre ++ [13]) ++ [10] by simp, List.dropLast_concat]
+    simp [crlfEnd, h1]
+
 theorem mlTextOK_drop {v : Bytes} (hv : mlTextOK v = true) (k : Nat) (hk : k < v.length) : mlTextOK (v.drop k) = true := by
+  have hcr := mlTextOK_nocrlf hv
   simp only [mlTextOK, Bool.and_eq_true, Bool.not_eq_true', List.isEmpty_eq_false_iff, List.all_eq_true] at hv ⊢
-  refine ⟨⟨?_, fun b hb => hv.1.2 b (List.mem_of_mem_drop hb)⟩, ?_⟩
+  refine ⟨⟨⟨?_, fun b hb => hv.1.1.2 b (List.mem_of_mem_drop hb)⟩, ?_⟩, ?_⟩
   · intro h0; have := congrArg List.length h0; simp at this; omega
   · intro b hb
-    apply hv.2 b
+    apply hv.1.2 b
     rw [List.dropLast_eq_take] at hb ⊢
     have : b ∈ (v.drop k).take ((v.drop k).length - 1) := hb
     rw [List.length_drop] at this
@@ -605,6 +697,13 @@ theorem mlTextOK_drop {v : Bytes} (hv : mlTextOK v = true) (k : Nat) (hk : k < v
       rw [List.drop_take]; congr 1; omega
     rw [h2] at this
     exact List.mem_of_mem_drop this
+  · cases hc : crlfEnd (v.drop k) with
+    | false => rfl
+    | true =>
+      obtain ⟨pre, hpre⟩ := (crlfEnd_iff _).mp hc
+      have : crlfEnd v = true := (crlfEnd_iff v).mpr ⟨v.take k ++ pre, by
+        rw [List.append_assoc, ← hpre, List.take_append_drop]⟩
+      rw [this] at hcr; cases hcr
 
 theorem leadSpaces_split (v : Bytes) : v = spacesL (leadSpaces v) ++ v.dropWhile (fun b => b == 32) := by
   have h1 : v.takeWhile (fun b => b == 32) = spacesL (leadSpaces v) := by
@@ -676,11 +775,16 @@ theorem st2Of_led (s : Src) (st : PatState) (p I k : Nat) (hrole : st.role = .li
 /-- writer state: indent level, buffer does not end with `\r`, and whether it ends with `\n` -/
 def WS (w : Writer) (L : Nat) (nl : Bool) : Prop := w.indentLevel = L ∧ endsWith w 13 = false ∧ endsWith w 10 = nl
 
+/-- writer state without the condition on a trailing `\r` (the state behind a text element that ends with `\r`) -/
+def WSc (w : Writer) (L : Nat) (nl : Bool) : Prop := w.indentLevel = L ∧ endsWith w 10 = nl
+
+theorem WS.toC {w : Writer} {L : Nat} {nl : Bool} (h : WS w L nl) : WSc w L nl := ⟨h.1, h.2.2⟩
+
 /-- round-trip property of a placeable element written at indent level `L` -/
 structure PlRT (L : Nat) (x : Expr Bytes) : Prop where
   head : (exprText L x).head? = some 123
   last : (exprText L x).getLast? = some 125
-  ser : ∀ (w : Writer) (nl : Bool), WS w L nl →
+  ser : ∀ (w : Writer) (nl : Bool), WSc w L nl →
     ∃ w', serElement w (.placeable x) = some w' ∧
       w'.buffer = w.buffer ++ ((if nl then spacesL (4 * L) else []) ++ exprText L x).toArray ∧ WS w' L false
   parse : ∀ (s : Src) (p n : Nat), AsciiThenBoundary s → At s p (exprText L x) → 4 * (exprText L x).length + 11 ≤ n →
@@ -762,7 +866,7 @@ theorem exprText_bnd {s : Src} (hs : AsciiThenBoundary s) {L : Nat} {x : Expr By
     (hat : At s p (exprText L x)) : s[p]? = some 123 ∧ Bnd s (p + (exprText L x).length) := by
   refine ⟨at_head hat h.head, ?_⟩
   have hl := h.last
-  have hx := validText_of_ml.dropLast_snoc_self _ _ hl
+  have hx := dropLast_snoc_self _ _ hl
   rw [hx, at_append] at hat
   simp only [at_cons] at hat
   have := bnd_succ hs hat.2.1 (by decide)
@@ -775,566 +879,5 @@ theorem exprText_len {L : Nat} {x : Expr Bytes} (h : PlRT L x) : 1 ≤ (exprText
   cases hx : exprText L x with
   | nil => simp [hx] at this
   | cons a as => simp
-
-/-- what follows a text element of a class pattern -/
-theorem ml_next (v : Bytes) (es : List (PatElem Bytes)) (nl : Bool) (hml : mlElems nl (.text v :: es) = true)
-    (hlast : mlLastOK (.text v :: es) = true) :
-    (endsNl v = true ∧ es ≠ []) ∨ (endsNl v = false ∧ es = [] ∧ ∃ x, v.getLast? = some x ∧ x ≠ 32 ∧ x ≠ 10 ∧ x ≠ 13) ∨
-      (endsNl v = false ∧ ∃ x es', es = .placeable x :: es') := by
-  simp only [mlElems, Bool.and_eq_true] at hml
-  obtain ⟨⟨⟨hvok, hadj⟩, _⟩, _⟩ := hml
-  cases hn : endsNl v
-  · right
-    cases es with
-    | nil =>
-      left
-      refine ⟨rfl, rfl, ?_⟩
-      have hne := mlTextOK_ne hvok
-      cases hl : v.getLast? with
-      | none => simp at hl; exact absurd hl hne
-      | some x =>
-        simp only [mlLastOK, hl, Bool.and_eq_true, bne_iff_ne, ne_eq, Option.some.injEq] at hlast
-        exact ⟨x, rfl, hlast.1, hlast.2, (mlTextOK_mem hvok x (List.mem_of_getLast? hl)).1⟩
-    | cons e es' =>
-      right
-      cases e with
-      | text w => simp [hn] at hadj
-      | placeable x => exact ⟨rfl, x, es', rfl⟩
-  · left
-    refine ⟨rfl, ?_⟩
-    intro h0; subst h0
-    simp only [endsNl, beq_iff_eq] at hn
-    simp [mlLastOK, hn] at hlast
-
-/-- **the `get_pattern` loop on the elements of a class pattern** written at level `L` -/
-theorem mlLoop {s : Src} (hs : AsciiThenBoundary s) (L : Nat) (es : List (PatElem Bytes)) :
-    ∀ (hpl : ∀ x, PatElem.placeable x ∈ es → PlRT L x) (nl : Bool) (n p q' : Nat) (st : PatState) (cfin : Option Nat),
-      mlElems nl es = true → mlLastOK es = true → (es = [] → nl = false) → (0 < L ∨ isMultiline es = false) →
-      (nl = true → 0 < L) → mlRole nl st.role →
-      ciAfter (4 * L) st.commonIndent (excesses nl es) = cfin →
-      (excesses nl es ≠ [] → cfin = some (4 * L)) → Bnd s p →
-      At s p (elemsText L nl es ++ [10]) → PatFollow s (p + (elemsText L nl es).length + 1) q' →
-      4 * (q' - p) + 8 ≤ n →
-      ∃ phs tr, getPatternLoop s n st p =
-          .ok ⟨st.elements ++ phs ++ tr,
-            (if es.isEmpty then st.lastNonBlank else some (st.elements.length + phs.length - 1)),
-            cfin, .lineStart, (if es.isEmpty then st.keptCommonIndent else cfin)⟩ q' ∧ MPh s cfin phs es := by
-  induction es with
-  | nil =>
-    intro _ nl n p q' st cfin _ _ hnl _ _ hrole hci _ hb hat hf hn
-    have hq' := hf.1
-    have : nl = false := hnl rfl
-    subst this
-    simp only [elemsText, List.nil_append, at_cons, List.length_nil, Nat.add_zero] at hat hf hq'
-    simp only [excesses, ciAfter] at hci
-    obtain ⟨tr, htr⟩ := mlLoop_nil hs n p q' st (mlRole_false hrole) hb hat.1 hf (by omega)
-    exact ⟨[], tr, by rw [htr, ← hci]; simp, by simp [MPh]⟩
-  | cons e es ih =>
-    intro hpl nl n p q' st cfin hml hlast _ hL hnlL hrole hci hcf hb hat hf hn
-    have hq' := hf.1
-    have hpl' : ∀ x, PatElem.placeable x ∈ es → PlRT L x := fun x hx => hpl x (List.mem_cons_of_mem _ hx)
-    have ih' := ih hpl'
-    have hlast' := mlLastOK_tail hlast
-    obtain ⟨m, rfl⟩ : ∃ m, n = m + 1 := ⟨n - 1, by omega⟩
-    cases e with
-    | placeable x =>
-      have hx := hpl x (List.mem_cons_self)
-      have hml' : mlElems false es = true := by simpa [mlElems] using hml
-      have hL' : 0 < L ∨ isMultiline es = false := by
-        rcases hL with h | h
-        · exact Or.inl h
-        · exact Or.inr (isMultiline_tail h)
-      cases nl with
-      | false =>
-        simp only [elemsText, Bool.false_eq_true, if_false, List.nil_append, List.append_assoc, List.length_append] at hat hf hq'
-        rw [at_append] at hat
-        obtain ⟨h123, hbq⟩ := exprText_bnd hs hx hat.1
-        obtain ⟨ex, hpe, hme⟩ := hx.parse s p m hs hat.1 (by omega)
-        rw [patternLoop_placeable_step s m st p ex _ h123 (mlRole_false hrole) hpe]
-        have hxl := exprText_len hx
-        simp only [excesses, Bool.false_eq_true, if_false, List.nil_append] at hci hcf
-        obtain ⟨phs, tr, hloop, hrel⟩ := ih' false m _ q'
-          ⟨st.elements ++ [.placeable ex], some st.elements.length, st.commonIndent, .continuation, st.commonIndent⟩ cfin
-          hml' hlast' (fun _ => rfl) hL' (fun h => by cases h) (by simp [mlRole]) hci hcf hbq hat.2
-          (by rw [← Nat.add_assoc] at hf; exact hf) (by omega)
-        refine ⟨.placeable ex :: phs, tr, ?_, ?_⟩
-        · rw [hloop]
-          simp only [List.append_assoc, List.singleton_append, List.length_append, List.length_cons, List.length_nil,
-            List.isEmpty_cons]
-          cases es with
-          | nil =>
-            simp only [MPh] at hrel; subst hrel
-            simp only [excesses, ciAfter] at hci
-            simp [hci]
-          | cons e2 rest =>
-            have := MPh_ne hrel (by simp)
-            simp only [List.isEmpty_cons, Bool.false_eq_true, if_false]
-            congr 2
-            cases phs with
-            | nil => exact absurd rfl this
-            | cons _ _ => simp; omega
-        · simp only [MPh]; exact Or.inl ⟨ex, phs, rfl, hme, hrel⟩
-      | true =>
-        have hLp := hnlL rfl
-        simp only [elemsText, if_true, List.append_assoc, List.length_append] at hat hf hq'
-        rw [at_append, at_append] at hat
-        obtain ⟨hsp0, hatx, hrest⟩ := hat
-        have hspl : (spacesL (4 * L)).length = 4 * L := by simp [spacesL]
-        rw [hspl] at hatx hrest hf hq'
-        have hsp := at_spaces s p (4 * L) hsp0
-        obtain ⟨h123, hbq⟩ := exprText_bnd hs hx hatx
-        obtain ⟨m2, rfl⟩ : ∃ m2, m = m2 + 1 := ⟨m - 1, by have := exprText_len hx; omega⟩
-        rw [step_ls_led s (m2 + 1) st p (4 * L) 0 (mlRole_true hrole) (by omega) (by simpa using hsp)
-          (by simpa using h123)]
-        simp only [Nat.add_zero]
-        obtain ⟨ex, hpe, hme⟩ := hx.parse s (p + 4 * L) m2 hs hatx (by omega)
-        rw [patternLoop_placeable_step s m2 _ (p + 4 * L) ex _ h123 rfl hpe]
-        have hxl := exprText_len hx
-        simp only [excesses, if_true, List.singleton_append, ciAfter] at hci hcf
-        have hcfin : cfin = some (4 * L) := hcf (by simp)
-        obtain ⟨phs, tr, hloop, hrel⟩ := ih' false m2 _ q'
-          ⟨st.elements ++ [.text p (p + 4 * L) (4 * L) .lineStart] ++ [.placeable ex],
-            some (st.elements ++ [Placeholder.text p (p + 4 * L) (4 * L) .lineStart]).length,
-            ciStep (4 * L) st.commonIndent 0, .continuation, ciStep (4 * L) st.commonIndent 0⟩ cfin
-          hml' hlast' (fun _ => rfl) hL' (fun h => by cases h) (by simp [mlRole]) hci (fun _ => hcfin) hbq hrest
-          (by rw [← Nat.add_assoc, ← Nat.add_assoc] at hf; exact hf) (by omega)
-        refine ⟨.text p (p + 4 * L) (4 * L) .lineStart :: .placeable ex :: phs, tr, ?_, ?_⟩
-        · rw [hloop]
-          simp only [List.append_assoc, List.singleton_append, List.length_append, List.length_cons, List.length_nil,
-            List.isEmpty_cons, List.cons_append, List.nil_append]
-          cases es with
-          | nil =>
-            simp only [MPh] at hrel; subst hrel
-            simp only [excesses, ciAfter] at hci
-            simp [hci]
-          | cons e2 rest =>
-            have := MPh_ne hrel (by simp)
-            simp only [List.isEmpty_cons, Bool.false_eq_true, if_false]
-            congr 2
-            cases phs with
-            | nil => exact absurd rfl this
-            | cons _ _ => simp; omega
-        · simp only [MPh]
-          refine Or.inr ⟨p, p + 4 * L, 4 * L, ex, phs, rfl, ?_, hme, hrel⟩
-          simp [effStart, hcfin]
-    | text v =>
-      have hnext := ml_next v es nl hml hlast
-      simp only [mlElems, Bool.and_eq_true] at hml
-      obtain ⟨⟨⟨hvok, hadj⟩, hls⟩, hml'⟩ := hml
-      have hvne := mlTextOK_ne hvok
-      have hvlen : 0 < v.length := by cases v <;> simp_all
-      have hL' : 0 < L ∨ isMultiline es = false := by
-        rcases hL with h | h
-        · exact Or.inl h
-        · exact Or.inr (isMultiline_tail h)
-      have hLnl : endsNl v = true → 0 < L := by
-        intro hnv
-        rcases hL with h | h
-        · exact h
-        · simp only [isMultiline, Bool.or_eq_false_iff] at h
-          have h10 : (10 : UInt8) ∈ v := by
-            have : v.getLast? = some 10 := by simpa [endsNl] using hnv
-            exact List.mem_of_getLast? this
-          have := h.1
-          rw [List.contains_eq_mem] at this
-          simp [h10] at this
-      cases nl with
-      | false =>
-        have hroleF := mlRole_false hrole
-        simp only [elemsText, Bool.false_eq_true, if_false, List.nil_append, List.append_assoc, List.length_append] at hat hf hq'
-        rw [at_append] at hat
-        obtain ⟨hatv, hrest⟩ := hat
-        simp only [excesses, Bool.false_and, Bool.false_eq_true, if_false, List.nil_append] at hci hcf
-        have hp0 : s[p]? ≠ some 123 := by
-          have hg := at_get hatv 0 hvlen
-          rw [Nat.add_zero] at hg
-          rw [hg]
-          have := (mlTextOK_mem hvok _ (List.getElem_mem hvlen)).2.1
-          simpa using this
-        have hplt : p < s.size := by
-          have hg := at_get hatv 0 hvlen
-          rw [Nat.add_zero] at hg; exact get_lt hg
-        have heff : effStart cfin p 0 st.role = p := by simp [effStart, hroleF]
-        rcases hnext with ⟨hnv, hes⟩ | ⟨hnv, hes, x, hx, x1, x2, x3⟩ | ⟨hnv, x, es', hes⟩
-        · -- the text ends its line
-          have hts := mlSlice_nl s v hvok hnv p hatv
-          have hlf : s[p + v.length - 1]? = some 10 := by
-            have hg := at_get hatv (v.length - 1) (by omega)
-            rw [show p + (v.length - 1) = p + v.length - 1 by omega] at hg
-            rw [hg]
-            have : v.getLast? = some 10 := by simpa [endsNl] using hnv
-            rw [List.getLast?_eq_getElem?, List.getElem?_eq_getElem (by omega)] at this
-            exact this
-          have hb2 : Bnd s (p + v.length) := by
-            have := bnd_succ hs hlf (by decide)
-            rwa [show p + v.length - 1 + 1 = p + v.length by omega] at this
-          have hsl := slice_ok (show p ≤ p + v.length by omega) hb hb2
-          rw [patternLoop_text_step s m st p _ _ _ .lineFeed hplt hp0 hroleF hts (by omega) hsl]
-          obtain ⟨phs, tr, hloop, hrel⟩ := ih' true m _ q'
-            ⟨st.elements ++ [.text p (p + v.length) 0 st.role], _, st.commonIndent, roleOf .lineFeed, _⟩ cfin
-            (by rw [hnv] at hml'; exact hml') hlast' (fun h => absurd h hes) hL' (fun _ => hLnl hnv) (by simp [mlRole, roleOf])
-            (by rw [hnv] at hci; exact hci) (by rw [hnv] at hcf; exact hcf) hb2 (by rw [hnv] at hrest; exact hrest)
-            (by rw [hnv] at hf; rw [← Nat.add_assoc] at hf; exact hf) (by rw [hnv] at hq'; omega)
-          have hesE : es.isEmpty = false := by
-            cases es with
-            | nil => exact absurd rfl hes
-            | cons _ _ => rfl
-          refine ⟨.text p (p + v.length) 0 st.role :: phs, tr, ?_, ?_⟩
-          · rw [hloop]
-            have := MPh_ne hrel hes
-            simp only [hesE, Bool.false_eq_true, if_false, List.append_assoc, List.singleton_append, List.length_append,
-              List.length_cons, List.length_nil, List.isEmpty_cons]
-            congr 2
-            cases phs with
-            | nil => exact absurd rfl this
-            | cons _ _ => simp; omega
-          · simp only [MPh]
-            refine ⟨p, p + v.length, 0, st.role, phs, rfl, ⟨?_, hb2, ?_, hvne, ?_⟩, hrel⟩
-            · rw [heff]; exact hb
-            · rw [heff]; exact hatv
-            · simp [hesE, heff]
-        · -- the last element
-          subst hes
-          simp only [elemsText, List.nil_append, at_cons, List.length_nil, Nat.add_zero] at hrest hf hq'
-          have h10 := hrest.1
-          have hts := mlSlice_last s v hvok hnv p hatv h10
-          have hb2 : Bnd s (p + v.length + 1) := bnd_succ hs h10 (by decide)
-          have hsl := slice_ok (show p ≤ p + v.length + 1 by omega) hb hb2
-          rw [patternLoop_text_step s m st p _ _ _ .lineFeed hplt hp0 hroleF hts (by omega) hsl]
-          have hsc : s[p + v.length - 1]? = some x := by
-            have hg := at_get hatv (v.length - 1) (by omega)
-            rw [show p + (v.length - 1) = p + v.length - 1 by omega] at hg
-            rw [hg]
-            rw [List.getLast?_eq_getElem?, List.getElem?_eq_getElem (by omega)] at hx
-            exact hx
-          have htrim := trimEnd_lf s p (p + v.length) x (by omega) h10 hsc x1 x3 x2
-          obtain ⟨hle, h10s, hstop⟩ := hf
-          obtain ⟨tr, htr⟩ := patternLoop_finish s q' (q' - (p + v.length + 1)) m (p + v.length + 1)
-            ⟨st.elements ++ [.text p (p + v.length + 1) 0 st.role], _, st.commonIndent, roleOf .lineFeed, _⟩
-            rfl (by omega) h10s hstop (by omega)
-          simp only [excesses, ciAfter] at hci
-          refine ⟨[.text p (p + v.length + 1) 0 st.role], tr, ?_, ?_⟩
-          · rw [htr]
-            have h2 : (p + v.length != p) = true := by simp; omega
-            simp [htrim, getLast_any_ne32 v x hx x1, h2, hci]
-          · simp only [MPh]
-            refine ⟨p, p + v.length + 1, 0, st.role, [], rfl, ⟨?_, hb2, ?_, hvne, ?_⟩, rfl⟩
-            · rw [heff]; exact hb
-            · rw [heff]; exact hatv
-            · simp only [List.isEmpty_nil, if_true, heff]
-              exact ⟨trivial, h10, x, hx, x1, x2, x3⟩
-        · -- a placeable follows
-          subst hes
-          have hxp := hpl' x (List.mem_cons_self)
-          have h123 : s[p + v.length]? = some 123 := by
-            simp only [elemsText, Bool.false_eq_true, if_false, List.nil_append, List.append_assoc] at hrest
-            rw [hnv] at hrest
-            simp only [elemsText, Bool.false_eq_true, if_false, List.nil_append, List.append_assoc] at hrest
-            rw [at_append] at hrest
-            exact at_head hrest.1 hxp.head
-          have hts := mlSlice_brace s v hvok hnv p hatv h123
-          have hb2 : Bnd s (p + v.length) := bnd_of_ascii h123 (by decide)
-          have hsl := slice_ok (show p ≤ p + v.length by omega) hb hb2
-          rw [patternLoop_text_step s m st p _ _ _ .placeableStart hplt hp0 hroleF hts (by omega) hsl]
-          obtain ⟨phs, tr, hloop, hrel⟩ := ih' false m _ q'
-            ⟨st.elements ++ [.text p (p + v.length) 0 st.role], _, st.commonIndent, roleOf .placeableStart, _⟩ cfin
-            (by rw [hnv] at hml'; exact hml') hlast' (fun h => by cases h) hL' (fun h => by cases h) (by simp [mlRole, roleOf])
-            (by rw [hnv] at hci; exact hci) (by rw [hnv] at hcf; exact hcf) hb2 (by rw [hnv] at hrest; exact hrest)
-            (by rw [hnv] at hf; rw [← Nat.add_assoc] at hf; exact hf) (by rw [hnv] at hq'; omega)
-          refine ⟨.text p (p + v.length) 0 st.role :: phs, tr, ?_, ?_⟩
-          · rw [hloop]
-            have := MPh_ne hrel (by simp)
-            simp only [List.isEmpty_cons, Bool.false_eq_true, if_false, List.append_assoc, List.singleton_append,
-              List.length_append, List.length_cons, List.length_nil]
-            congr 2
-            cases phs with
-            | nil => exact absurd rfl this
-            | cons _ _ => simp; omega
-          · simp only [MPh]
-            refine ⟨p, p + v.length, 0, st.role, phs, rfl, ⟨?_, hb2, ?_, hvne, ?_⟩, hrel⟩
-            · rw [heff]; exact hb
-            · rw [heff]; exact hatv
-            · simp [heff]
-      | true =>
-        have hLp := hnlL rfl
-        have hroleT := mlRole_true hrole
-        simp only [elemsText, if_true, List.append_assoc, List.length_append] at hat hf hq'
-        rw [at_append, at_append] at hat
-        obtain ⟨hsp0, hatv, hrest⟩ := hat
-        have hspl : (spacesL (4 * L)).length = 4 * L := by simp [spacesL]
-        rw [hspl] at hatv hrest hf hq'
-        have hsp := at_spaces s p (4 * L) hsp0
-        have hbI : Bnd s (p + 4 * L) := by
-          have := hsp (4 * L - 1) (by omega)
-          have := bnd_succ hs this (by decide)
-          rwa [show p + (4 * L - 1) + 1 = p + 4 * L by omega] at this
-        by_cases hblank : v = [10]
-        · -- a blank line
-          subst hblank
-          simp only [at_cons] at hatv
-          have hes : es ≠ [] := by
-            rcases hnext with ⟨_, h⟩ | ⟨h, _⟩ | ⟨h, _⟩
-            · exact h
-            · simp [endsNl] at h
-            · simp [endsNl] at h
-          rw [step_ls_blank s m st p (4 * L) hroleT (by omega) hsp hatv.1]
-          simp only [excesses, Bool.true_and, bne_self_eq_false, Bool.false_eq_true, if_false, List.nil_append] at hci hcf
-          have hnv : endsNl ([10] : Bytes) = true := by decide
-          rw [hnv] at hml' hci hcf hrest hf hq'
-          simp only [List.length_cons, List.length_nil] at hrest hf hq'
-          have hb2 : Bnd s (p + 4 * L + 1) := bnd_succ hs hatv.1 (by decide)
-          obtain ⟨phs, tr, hloop, hrel⟩ := ih' true m _ q'
-            ⟨st.elements ++ [.text (p + 4 * L) (p + 4 * L + 1) 0 .lineStart], st.lastNonBlank, st.commonIndent,
-              .lineStart, st.keptCommonIndent⟩ cfin
-            hml' hlast' (fun h => absurd h hes) hL' (fun _ => hLp) (by simp [mlRole])
-            hci hcf hb2 hrest
-            (by rw [show p + 4 * L + 1 + (elemsText L true es).length + 1 =
-                  p + (4 * L + (0 + 1 + (elemsText L true es).length)) + 1 by omega]
-                exact hf)
-            (by omega)
-          have hesE : es.isEmpty = false := by
-            cases es with
-            | nil => exact absurd rfl hes
-            | cons _ _ => rfl
-          refine ⟨.text (p + 4 * L) (p + 4 * L + 1) 0 .lineStart :: phs, tr, ?_, ?_⟩
-          · rw [hloop]
-            have := MPh_ne hrel hes
-            simp only [hesE, Bool.false_eq_true, if_false, List.append_assoc, List.singleton_append, List.length_append,
-              List.length_cons, List.length_nil, List.isEmpty_cons]
-            congr 2
-            cases phs with
-            | nil => exact absurd rfl this
-            | cons _ _ => simp; omega
-          · simp only [MPh]
-            have heff : effStart cfin (p + 4 * L) 0 .lineStart = p + 4 * L := by
-              cases cfin <;> simp [effStart]
-            refine ⟨p + 4 * L, p + 4 * L + 1, 0, .lineStart, phs, rfl, ⟨?_, hb2, ?_, by simp, ?_⟩, hrel⟩
-            · rw [heff]; exact hbI
-            · rw [heff]; simp [at_cons, hatv.1]
-            · simp [hesE, heff]
-        · -- a line that starts with a text element
-          have hlsok : lineStartOK v es = true := by
-            simp only [Bool.not_true, Bool.false_or, Bool.or_eq_true, beq_iff_eq] at hls
-            rcases hls with h | h
-            · exact absurd h hblank
-            · exact h
-          have hvb : (v != [10]) = true := by simpa using hblank
-          simp only [excesses, Bool.true_and, hvb, if_true, List.singleton_append, ciAfter] at hci hcf
-          have hcfin : cfin = some (4 * L) := hcf (by simp)
-          have hsplit := leadSpaces_split v
-          generalize hk : leadSpaces v = k at hsplit hci
-          have hvlen' : v.length = k + (v.dropWhile (fun b => b == 32)).length := by
-            have := congrArg List.length hsplit; simpa [spacesL] using this
-          have hatv2 : At s (p + 4 * L) (spacesL k) ∧ At s (p + 4 * L + k) (v.dropWhile (fun b => b == 32)) := by
-            rw [hsplit, at_append] at hatv; simpa [spacesL] using hatv
-          have hsp' : ∀ j, j < 4 * L + k → s[p + j]? = some 32 := by
-            intro j hj
-            by_cases h1 : j < 4 * L
-            · exact hsp j h1
-            · have := at_spaces s (p + 4 * L) k hatv2.1 (j - 4 * L) (by omega)
-              rwa [show p + 4 * L + (j - 4 * L) = p + j by omega] at this
-          have hbc : Bnd s (p + (4 * L + k)) := by
-            have := hsp' (4 * L + k - 1) (by omega)
-            have := bnd_succ hs this (by decide)
-            rwa [show p + (4 * L + k - 1) + 1 = p + (4 * L + k) by omega] at this
-          have heff : effStart cfin p (4 * L + k) .lineStart = p + 4 * L := by
-            simp [effStart, hcfin]
-          cases hu : v.dropWhile (fun b => b == 32) with
-          | nil =>
-            -- only spaces, in front of a placeable
-            rw [hu] at hvlen'
-            simp only [lineStartOK, hu] at hlsok
-            obtain ⟨x, es', rfl⟩ : ∃ x es', es = .placeable x :: es' := by
-              cases es with
-              | nil => simp at hlsok
-              | cons e es' => cases e with
-                | text w => simp at hlsok
-                | placeable x => exact ⟨x, es', rfl⟩
-            have hnv : endsNl v = false := by
-              have hk0 : 0 < k := by simp at hvlen'; omega
-              have hv2 : v = spacesL k := by rw [hu] at hsplit; simpa using hsplit
-              have : v.getLast? = some 32 := by
-                rw [hv2]; simp [spacesL, List.getLast?_replicate]; omega
-              simp [endsNl, this]
-            rw [hnv] at hml' hci hcf hrest hf hq'
-            have hxp := hpl' x (List.mem_cons_self)
-            simp only [List.length_nil, Nat.add_zero] at hvlen'
-            have hrest' : At s (p + (4 * L + k)) (elemsText L false (.placeable x :: es') ++ [10]) := by
-              rw [hvlen'] at hrest; rwa [Nat.add_assoc] at hrest
-            have h123 : s[p + (4 * L + k)]? = some 123 := by
-              have := hrest'
-              simp only [elemsText, Bool.false_eq_true, if_false, List.nil_append, List.append_assoc] at this
-              rw [at_append] at this
-              exact at_head this.1 hxp.head
-            rw [step_ls_led s m st p (4 * L) k hroleT (by omega) hsp' h123]
-            obtain ⟨phs, tr, hloop, hrel⟩ := ih' false m _ q'
-              ⟨st.elements ++ [.text p (p + (4 * L + k)) (4 * L + k) .lineStart], st.lastNonBlank,
-                ciStep (4 * L) st.commonIndent k, .continuation, st.keptCommonIndent⟩ cfin
-              hml' hlast' (fun h => by cases h) hL' (fun h => by cases h) (by simp [mlRole])
-              hci (fun _ => hcfin) hbc hrest'
-              (by rw [hvlen'] at hf
-                  rw [show p + (4 * L + k) + (elemsText L false (.placeable x :: es')).length + 1 =
-                    p + (4 * L + (k + (elemsText L false (.placeable x :: es')).length)) + 1 by omega]
-                  exact hf)
-              (by rw [hvlen'] at hq'; omega)
-            refine ⟨.text p (p + (4 * L + k)) (4 * L + k) .lineStart :: phs, tr, ?_, ?_⟩
-            · rw [hloop]
-              have := MPh_ne hrel (by simp)
-              simp only [List.isEmpty_cons, Bool.false_eq_true, if_false, List.append_assoc, List.singleton_append,
-                List.length_append, List.length_cons, List.length_nil]
-              congr 2
-              cases phs with
-              | nil => exact absurd rfl this
-              | cons _ _ => simp; omega
-            · simp only [MPh]
-              refine ⟨p, p + (4 * L + k), 4 * L + k, .lineStart, phs, rfl, ⟨?_, hbc, ?_, hvne, ?_⟩, hrel⟩
-              · rw [heff]; exact hbI
-              · rw [heff]; exact hatv
-              · simp only [List.isEmpty_cons, Bool.false_eq_true, if_false, heff]; omega
-          | cons c u' =>
-            rw [hu] at hvlen' hatv2
-            simp only [lineStartOK, hu] at hlsok
-            have hc0 : s[p + (4 * L + k)]? = some c := by
-              have := hatv2.2; rw [at_cons] at this; rw [← Nat.add_assoc]; exact this.1
-            have hcm : c ∈ v := by rw [hsplit, hu]; simp
-            obtain ⟨hcont, hc32⟩ := cont_of_start c hlsok (mlTextOK_mem hvok c hcm).2.2
-            have hc10 : c ≠ 10 := by simp [contentStartOK] at hlsok; exact hlsok.1.1.1.2
-            have hc13 : c ≠ 13 := (mlTextOK_mem hvok c hcm).1
-            have hklt : k < v.length := by simp at hvlen'; omega
-            have hdrop : v.drop k = c :: u' := by rw [← hu, dropWhile_eq_drop, hk]
-            have huok : mlTextOK (c :: u') = true := by rw [← hdrop]; exact mlTextOK_drop hvok k hklt
-            have hveq : v = spacesL k ++ (c :: u') := by rw [← hu]; exact hsplit
-            have hulast : (c :: u').getLast? = v.getLast? := by
-              rw [hveq, List.getLast?_append]
-              cases hg : (c :: u').getLast? with
-              | none => simp at hg
-              | some y => rfl
-            have hatu : At s (p + (4 * L + k)) (c :: u') := by rw [← Nat.add_assoc]; exact hatv2.2
-            have hulen : p + (4 * L + k) + (c :: u').length = p + 4 * L + v.length := by rw [hvlen']; omega
-            rcases hnext with ⟨hnv, hes⟩ | ⟨hnv, hes, x, hx, x1, x2, x3⟩ | ⟨hnv, x, es', hes⟩
-            · -- the text ends its line
-              have hnu : endsNl (c :: u') = true := by simp only [endsNl, hulast]; exact hnv
-              have hts := mlSlice_nl s (c :: u') huok hnu _ hatu
-              have hnb : ((c :: u').dropLast.any fun b => b != 32) = true := by
-                cases u' with
-                | nil => simp [endsNl] at hnu; exact absurd hnu hc10
-                | cons y ys => simp [hc32]
-              rw [hnb, hulen] at hts
-              have hlf : s[p + 4 * L + v.length - 1]? = some 10 := by
-                have hg := at_get hatv (v.length - 1) (by omega)
-                rw [show p + 4 * L + (v.length - 1) = p + 4 * L + v.length - 1 by omega] at hg
-                rw [hg]
-                have : v.getLast? = some 10 := by simpa [endsNl] using hnv
-                rw [List.getLast?_eq_getElem?, List.getElem?_eq_getElem (by omega)] at this
-                exact this
-              have hb2 : Bnd s (p + 4 * L + v.length) := by
-                have := bnd_succ hs hlf (by decide)
-                rwa [show p + 4 * L + v.length - 1 + 1 = p + 4 * L + v.length by omega] at this
-              have hsl := slice_ok (show p + (4 * L + k) ≤ p + 4 * L + v.length by omega) hbc hb2
-              rw [step_ls_content s m st p (4 * L) k c _ _ .lineFeed hroleT (by omega) hsp' hc0 hc32 hcont hts (by omega) hsl]
-              rw [hnv] at hml' hci hcf hrest hf hq'
-              obtain ⟨phs, tr, hloop, hrel⟩ := ih' true m _ q'
-                ⟨st.elements ++ [.text p (p + 4 * L + v.length) (4 * L + k) .lineStart], _,
-                  ciStep (4 * L) st.commonIndent k, roleOf .lineFeed, _⟩ cfin
-                hml' hlast' (fun h => absurd h hes) hL' (fun _ => hLp) (by simp [mlRole, roleOf])
-                hci (fun _ => hcfin) hb2 hrest
-                (by rw [show p + 4 * L + v.length + (elemsText L true es).length + 1 =
-                      p + (4 * L + (v.length + (elemsText L true es).length)) + 1 by omega]; exact hf)
-                (by omega)
-              have hesE : es.isEmpty = false := by
-                cases es with
-                | nil => exact absurd rfl hes
-                | cons _ _ => rfl
-              refine ⟨.text p (p + 4 * L + v.length) (4 * L + k) .lineStart :: phs, tr, ?_, ?_⟩
-              · rw [hloop]
-                have := MPh_ne hrel hes
-                simp only [hesE, Bool.false_eq_true, if_false, List.append_assoc, List.singleton_append,
-                  List.length_append, List.length_cons, List.length_nil, List.isEmpty_cons]
-                congr 2
-                cases phs with
-                | nil => exact absurd rfl this
-                | cons _ _ => simp; omega
-              · simp only [MPh]
-                refine ⟨p, p + 4 * L + v.length, 4 * L + k, .lineStart, phs, rfl, ⟨?_, hb2, ?_, hvne, ?_⟩, hrel⟩
-                · rw [heff]; exact hbI
-                · rw [heff]; exact hatv
-                · simp [hesE, heff]
-            · -- the last element
-              subst hes
-              rw [hnv] at hrest hf hq' hci
-              simp only [elemsText, List.nil_append, at_cons, List.length_nil, Nat.add_zero] at hrest hf hq'
-              simp only [excesses, ciAfter] at hci
-              have h10 := hrest.1
-              have hnu : endsNl (c :: u') = false := by simp only [endsNl, hulast]; exact hnv
-              have h10' : s[p + (4 * L + k) + (c :: u').length]? = some 10 := by rw [hulen]; exact h10
-              have hts := mlSlice_last s (c :: u') huok hnu _ hatu h10'
-              have hnb : ((c :: u').any fun b => b != 32) = true := by simp [hc32]
-              rw [hnb, hulen] at hts
-              have hb2 : Bnd s (p + 4 * L + v.length + 1) := bnd_succ hs h10 (by decide)
-              have hsl := slice_ok (show p + (4 * L + k) ≤ p + 4 * L + v.length + 1 by omega) hbc hb2
-              rw [step_ls_content s m st p (4 * L) k c _ _ .lineFeed hroleT (by omega) hsp' hc0 hc32 hcont hts (by omega) hsl]
-              have hsv := trimEnd_first s (p + (4 * L + k)) (p + 4 * L + v.length + 1) c (by omega) hc0 hc32 hc13 hc10
-              obtain ⟨hle, h10s, hstop⟩ := hf
-              obtain ⟨tr, htr⟩ := patternLoop_finish s q' (q' - (p + 4 * L + v.length + 1)) m (p + 4 * L + v.length + 1)
-                ⟨st.elements ++ [.text p (p + 4 * L + v.length + 1) (4 * L + k) .lineStart], _,
-                  ciStep (4 * L) st.commonIndent k, roleOf .lineFeed, _⟩
-                rfl (by omega) (fun j h1 h2 => h10s j (by omega) h2)
-                hstop (by omega)
-              have hsc : s[p + 4 * L + v.length - 1]? = some x := by
-                have hg := at_get hatv (v.length - 1) (by omega)
-                rw [show p + 4 * L + (v.length - 1) = p + 4 * L + v.length - 1 by omega] at hg
-                rw [hg]
-                rw [List.getLast?_eq_getElem?, List.getElem?_eq_getElem (by omega)] at hx
-                exact hx
-              refine ⟨[.text p (p + 4 * L + v.length + 1) (4 * L + k) .lineStart], tr, ?_, ?_⟩
-              · rw [htr]
-                simp [hsv, hci]
-              · simp only [MPh]
-                refine ⟨p, p + 4 * L + v.length + 1, 4 * L + k, .lineStart, [], rfl, ⟨?_, hb2, ?_, hvne, ?_⟩, rfl⟩
-                · rw [heff]; exact hbI
-                · rw [heff]; exact hatv
-                · simp only [List.isEmpty_nil, if_true, heff]
-                  exact ⟨trivial, h10, x, hx, x1, x2, x3⟩
-            · -- a placeable follows
-              subst hes
-              rw [hnv] at hml' hci hcf hrest hf hq'
-              have hxp := hpl' x (List.mem_cons_self)
-              have h123 : s[p + 4 * L + v.length]? = some 123 := by
-                have := hrest
-                simp only [elemsText, Bool.false_eq_true, if_false, List.nil_append, List.append_assoc] at this
-                rw [at_append] at this
-                exact at_head this.1 hxp.head
-              have hnu : endsNl (c :: u') = false := by simp only [endsNl, hulast]; exact hnv
-              have h123' : s[p + (4 * L + k) + (c :: u').length]? = some 123 := by rw [hulen]; exact h123
-              have hts := mlSlice_brace s (c :: u') huok hnu _ hatu h123'
-              have hnb : ((c :: u').any fun b => b != 32) = true := by simp [hc32]
-              rw [hnb, hulen] at hts
-              have hb2 : Bnd s (p + 4 * L + v.length) := bnd_of_ascii h123 (by decide)
-              have hsl := slice_ok (show p + (4 * L + k) ≤ p + 4 * L + v.length by omega) hbc hb2
-              rw [step_ls_content s m st p (4 * L) k c _ _ .placeableStart hroleT (by omega) hsp' hc0 hc32 hcont hts
-                (by omega) hsl]
-              obtain ⟨phs, tr, hloop, hrel⟩ := ih' false m _ q'
-                ⟨st.elements ++ [.text p (p + 4 * L + v.length) (4 * L + k) .lineStart], _,
-                  ciStep (4 * L) st.commonIndent k, roleOf .placeableStart, _⟩ cfin
-                hml' hlast' (fun h => by cases h) hL' (fun h => by cases h) (by simp [mlRole, roleOf])
-                hci (fun _ => hcfin) hb2 hrest
-                (by rw [show p + 4 * L + v.length + (elemsText L false (.placeable x :: es')).length + 1 =
-                      p + (4 * L + (v.length + (elemsText L false (.placeable x :: es')).length)) + 1 by omega]
-                    exact hf)
-                (by omega)
-              refine ⟨.text p (p + 4 * L + v.length) (4 * L + k) .lineStart :: phs, tr, ?_, ?_⟩
-              · rw [hloop]
-                have := MPh_ne hrel (by simp)
-                simp only [List.isEmpty_cons, Bool.false_eq_true, if_false, List.append_assoc, List.singleton_append,
-                  List.length_append, List.length_cons, List.length_nil]
-                congr 2
-                cases phs with
-                | nil => exact absurd rfl this
-                | cons _ _ => simp; omega
-              · simp only [MPh]
-                refine ⟨p, p + 4 * L + v.length, 4 * L + k, .lineStart, phs, rfl, ⟨?_, hb2, ?_, hvne, ?_⟩, hrel⟩
-                · rw [heff]; exact hbI
-                · rw [heff]; exact hatv
-                · simp [heff]
 
 end FluentProofs.Ser
